@@ -563,7 +563,7 @@ func (u *grpcUnmarshaler) Unmarshal(message any) *Error {
 		)
 	}
 	u.webTrailer = http.Header(mimeHeader)
-	return errSpecialEnvelope
+	return newSpecialEnvelopeError()
 }
 
 func (u *grpcUnmarshaler) WebTrailer() http.Header {
